@@ -199,7 +199,7 @@ Definition registry : list reg :=
    They are covered by the exploration half of the check only. *)
 Definition explored_only : list (string * string) :=
   [ ("analysis/callcheck/callcheck.go:checkCalls:site.Source().(type)", "AST source attached to a call instruction by go/ir (data)");
-    ("analysis/code/code.go:SelectorName:expr.X.(type)", "callers pass qualified identifiers only (data)");
+    ("analysis/code/code.go:SelectorName:expr.X.(type)", "X is a package qualifier, or the type expression of a keyed struct literal for which SA1019 builds a synthetic selector: Ident, SelectorExpr, IndexExpr, IndexListExpr (data; explored by the group generic_complit)");
     ("analysis/code/visit.go:CouldMatchAny:node.(type)", "pattern index nodes (C08)");
     ("go/ir/builder.go:builder.addr:mode", "indexMode computed by indexType (data)");
     ("go/ir/builder.go:builder.expr0:mode", "indexMode computed by indexType (data)");
